@@ -89,6 +89,16 @@ Mix(al, tt, gm) ==
         g  == GcdSeq(nn, dd)
     IN  [num |-> [x \in 1..Len(nn) |-> nn[x] \div g], den |-> dd \div g]
 StepTo(GG, al, tt) == Mix(al, tt, Gamma(GG, al, tt))
+
+\* 32-bit guard for instances that do not come from an exhaustive family (UseFile): a further step
+\* is modelled only if its largest intermediate, about 4 max|G| den^3, fits; the exported scenario
+\* then says how many iterations were modelled (`iters`) and the harness replays exactly that many.
+MaxAbsG(GG)      == LET F[x \in 0..Len(GG)] == IF x = 0 THEN 1
+                                               ELSE LET r == MinOf([y \in 1..Len(GG) |-> 0 - Abs(GG[x][y])])
+                                                    IN  IF 0 - r > F[x - 1] THEN 0 - r ELSE F[x - 1]
+                    IN  F[Len(GG)]
+CanStep(GG, al)  == ~UseFile \/ (al.den <= 800 /\ al.den * al.den * al.den < 1000000000 \div (4 * MaxAbsG(GG)))
+NormSafe(GG, al) == ~UseFile \/ (al.den <= 8000 /\ al.den * al.den < 1000000000 \div (16 * MaxAbsG(GG)))
 StopsAfter(gm)     == gm[1] * EpsDen < EpsNum * gm[2]            \* gamma < epsilon
 
 \* sign of the derivative of  g |-> |J^T((1-g) alpha + g e_t)|^2  at g = p/q
@@ -107,12 +117,16 @@ TwoRowWeights(GG) ==
 RNormSq(GG, d) == CSumSeq([x \in 1..Len(d) |->
                      CMul(d[x], CSumSeq([y \in 1..Len(d) |-> CMul(R(GG[x][y]), d[y])]))])
 
-\* all results of at most kk further iterations from al (ties branch): used by the trace spec
-RECURSIVE Finals(_, _, _)
-Finals(GG, al, kk) ==
-    IF kk = 0 THEN {al}
-    ELSE UNION { IF StopsAfter(Gamma(GG, al, tt)) THEN {StepTo(GG, al, tt)}
-                 ELSE Finals(GG, StepTo(GG, al, tt), kk - 1) : tt \in ArgMins(GG, al) }
+\* all results of at most kk further iterations from al (ties branch): used by the trace spec;
+\* [al, left]: left > 0 iff the integers did not allow to model the remaining iterations
+RECURSIVE FinalsL(_, _, _)
+FinalsL(GG, al, kk) ==
+    IF kk = 0 THEN {[al |-> al, left |-> 0]}
+    ELSE IF ~CanStep(GG, al) THEN {[al |-> al, left |-> kk]}
+    ELSE UNION { IF StopsAfter(Gamma(GG, al, tt)) THEN {[al |-> StepTo(GG, al, tt), left |-> 0]}
+                 ELSE FinalsL(GG, StepTo(GG, al, tt), kk - 1) : tt \in ArgMins(GG, al) }
+Finals(GG, al, kk) == {r.al : r \in FinalsL(GG, al, kk)}
+Complete(JJ, kk)   == \A r \in FinalsL(Gram(JJ), Uniform(Len(JJ)), kk) : r.left = 0
 \* weights @ matrix, as a rational vector
 Combine(al, JJ)      == [c \in 1..Len(JJ[1]) |-> Frac(SumSeq([r \in 1..Len(JJ) |-> al.num[r] * JJ[r][c]]), al.den)]
 FinalVectors(JJ, kk) == {Combine(al, JJ) : al \in Finals(Gram(JJ), Uniform(Len(JJ)), kk)}
@@ -131,7 +145,7 @@ FinalVectors(JJ, kk) == {Combine(al, JJ) : al \in Finals(Gram(JJ), Uniform(Len(J
             path = <<>>,              \* history: the vertices chosen
             stopped = FALSE;
   {
-    Iter: while (k < K /\ ~stopped) {
+    Iter: while (k < K /\ ~stopped /\ CanStep(G, alpha)) {
         with (tt \in ArgMins(G, alpha)) {            \* torch.argmin(gramian @ alpha)
             t := tt;
             ties := ties + (IF Cardinality(ArgMins(G, alpha)) > 1 THEN 1 ELSE 0);
@@ -165,7 +179,7 @@ Init == (* Global variables *)
         /\ pc = "Iter"
 
 Iter == /\ pc = "Iter"
-        /\ IF k < K /\ ~stopped
+        /\ IF k < K /\ ~stopped /\ CanStep(G, alpha)
               THEN /\ \E tt \in ArgMins(G, alpha):
                         /\ t' = tt
                         /\ ties' = ties + (IF Cardinality(ArgMins(G, alpha)) > 1 THEN 1 ELSE 0)
@@ -209,15 +223,16 @@ OnSimplex == /\ \A x \in 1..m : alpha.num[x] >= 0
              /\ SumSeq(alpha.num) = alpha.den
 
 \* C18 mechanism: |J^T alpha| never increases along the iteration
-Monotone == [][CLe(NormSq(G', alpha'), NormSq(G, alpha))]_vars
+Monotone == [][(NormSafe(G, alpha) /\ NormSafe(G', alpha') /\ (UseFile => alpha.den * alpha'.den <= 3000))
+                 => CLe(NormSq(G', alpha'), NormSq(G, alpha))]_vars
 
 \* C18: never longer than the mean of the rows
-NotLongerThanMean == CLe(NormSq(G, alpha), NormSq(G, Uniform(m)))
+NotLongerThanMean == NormSafe(G, alpha) => CLe(NormSq(G, alpha), NormSq(G, Uniform(m)))
 
 \* the gamma of the three-way case analysis is the exact line search on [alpha, e_t]:
 \* checked on the state BEFORE each step, for every admissible t
 LineSearchExact ==
-    (pc = "Iter" /\ k < K /\ k < 2 /\ ~stopped) =>        \* (an algebraic identity: two levels suffice)
+    (pc = "Iter" /\ k < K /\ k < 2 /\ ~stopped /\ CanStep(G, alpha) /\ (UseFile => k = 0)) =>   \* (an algebraic identity: two levels suffice)
         \A tt \in ArgMins(G, alpha) :
             LET gm == Gamma(G, alpha, tt)  d == DerivSign(G, alpha, tt, gm)
             IN  /\ 0 <= gm[1] /\ gm[1] <= gm[2]
@@ -228,19 +243,19 @@ LineSearchExact ==
 \* C18: two rows - after one step alpha is the minimum-norm point of the segment (as a vector:
 \* the weights are not unique when the two rows coincide)
 TwoRowsClosedForm ==
-    (m = 2 /\ k >= 1) =>
+    (m = 2 /\ k >= 1 /\ NormSafe(G, alpha)) =>
         LET aw == AsRat(alpha)  cw == TwoRowWeights(G)
         IN  RIsZero(RNormSq(G, <<CSub(aw[1], cw[1]), CSub(aw[2], cw[2])>>))
 
 \* nothing depends on the scale of the matrix (replay on 2^e J is legitimate)
 ScaleFree ==
-    (k < K /\ k < 2) =>
+    (k < K /\ k < 2 /\ ~UseFile) =>
     LET G4 == [x \in 1..m |-> [y \in 1..m |-> 4 * G[x][y]]]
     IN  /\ ArgMins(G4, alpha) = ArgMins(G, alpha)
         /\ \A tt \in ArgMins(G, alpha) : Gamma(G4, alpha, tt) = Gamma(G, alpha, tt)
 
 \* the step-wise algorithm and the recursive definition used for traces agree
-FinalsAgree == Finished => alpha \in Finals(G, Uniform(m), K)
+FinalsAgree == Finished => [al |-> alpha, left |-> IF stopped THEN 0 ELSE K - k] \in FinalsL(G, Uniform(m), K)
 
 Terminates == <>Finished
 
@@ -250,9 +265,9 @@ Terminates == <>Finished
 MaxDenV(v)  == LET F[x \in 0..Len(v)] == IF x = 0 THEN 1 ELSE IF v[x][2] > F[x - 1] THEN v[x][2] ELSE F[x - 1]
                IN  F[Len(v)]
 Scenario == [J |-> J, K |-> K, eps |-> <<EpsNum, EpsDen>>, alpha |-> AsRat(alpha), vec |-> Vector,
-             ties |-> ties, path |-> path, iters |-> k, last |-> branch,
+             ties |-> ties, path |-> path, iters |-> k, stopped |-> stopped, last |-> branch,
              den |-> MaxDenV(Vector),
-             mean2 |-> NormSq(G, Uniform(m)), norm2 |-> NormSq(G, alpha),
+             mean2 |-> NormSq(G, Uniform(m)),
              closed |-> IF m = 2 THEN RVecMat(TwoRowWeights(G), RMat(J), Len(J[1])) ELSE <<>>,
              exps |-> ScaleExps]
 Export   == Finished => PrintT(<<"SCN", ToJson(Scenario)>>)
